@@ -70,7 +70,7 @@ class WfScenario(Scenario):
     def __init__(self, name, yaml_text, wf='wf', wf_input=None, results=None,
                  params=None, overrides=None, scheduler='legacy',
                  workbook=False, meta=None, expect_paused=False,
-                 n_sched=1, clear_caches=False, rp=False):
+                 n_sched=1, clear_caches=False, rp=False, copies=1):
         self.name = name
         self.yaml = yaml_text
         self.wf = wf
@@ -85,6 +85,7 @@ class WfScenario(Scenario):
         self.n_sched = n_sched
         self.clear_caches = clear_caches
         self.rp = rp            # transactions may overlap (env._rp_point)
+        self.copies = copies    # executions of the workflow started at once
 
     def spec(self):
         return ('mc.wfscn', type(self).__name__, self.kwargs())
@@ -97,7 +98,7 @@ class WfScenario(Scenario):
                     scheduler=self.scheduler, workbook=self.workbook,
                     meta=self.meta, expect_paused=self.expect_paused,
                     n_sched=self.n_sched, clear_caches=self.clear_caches,
-                    rp=self.rp)
+                    rp=self.rp, copies=self.copies)
 
     def describe(self):
         return {'name': self.name, 'workflow': self.yaml,
@@ -132,10 +133,12 @@ class WfScenario(Scenario):
         env.W.rp = self.rp
 
     def start(self):
-        env.post('start_workflow', wf_identifier=self.wf,
-                 wf_namespace=(self.meta or {}).get('root_namespace', ''),
-                 wf_ex_id=None, wf_input=dict(self.wf_input),
-                 description='', params=dict(self.params))
+        for _ in range(self.copies):
+            env.post('start_workflow', wf_identifier=self.wf,
+                     wf_namespace=(self.meta or {}).get('root_namespace',
+                                                        ''),
+                     wf_ex_id=None, wf_input=dict(self.wf_input),
+                     description='', params=dict(self.params))
 
     # ---- generic oracles (C01 a, b, d) --------------------------------
     def check_step(self, pre, post, choice, ctx):
@@ -239,6 +242,25 @@ class ProgScenario(WfScenario):
         from mc import refmodel
         key, v = super(ProgScenario, self).check_terminal(snap, ctx)
         m = self.model()
+        roots = [w for w in snap['workflow_executions_v2']
+                 if not w['task_execution_id']]
+        if not m['truncated'] and len(roots) > 1:
+            # several executions of the same workflow side by side: each
+            # one on its own must end as the language prescribes
+            for r in roots:
+                part = split_by_root(snap, r['id'])
+                impl = refmodel.project_impl(outcome_of(part))
+                if not any(refmodel.matches(impl, o, self.compare_output,
+                                            self.compare_ctx)
+                           for o in m['outcomes']):
+                    v.append('one of %d concurrent executions of the same '
+                             'workflow ended with an outcome the language '
+                             'does not allow: impl=%s allowed=%s' % (
+                                 len(roots),
+                                 json.dumps(impl, sort_keys=True),
+                                 json.dumps(m['outcomes'][:4],
+                                            sort_keys=True)))
+            return key, v
         if not m['truncated']:
             impl = refmodel.project_impl(outcome_of(snap))
             if not any(refmodel.matches(impl, o, self.compare_output,
@@ -252,6 +274,22 @@ class ProgScenario(WfScenario):
 
 
 COMPLETED = ('SUCCESS', 'ERROR', 'CANCELLED', 'SKIPPED')
+
+
+def split_by_root(snap, root_id):
+    """The rows of one execution tree."""
+    wids = set(w['id'] for w in snap['workflow_executions_v2']
+               if w['id'] == root_id or w['root_execution_id'] == root_id)
+    tids = set(t['id'] for t in snap['task_executions_v2']
+               if t['workflow_execution_id'] in wids)
+    out = dict(snap)
+    out['workflow_executions_v2'] = [w for w in snap['workflow_executions_v2']
+                                     if w['id'] in wids]
+    out['task_executions_v2'] = [t for t in snap['task_executions_v2']
+                                 if t['id'] in tids]
+    out['action_executions_v2'] = [a for a in snap['action_executions_v2']
+                                   if a['task_execution_id'] in tids]
+    return out
 
 
 def prereq_violations(prog, pre, post, rerun=False):
